@@ -31,7 +31,7 @@ def _ctc(draw, nms, feats):
 
 
 PROFILE = S.Profile(names(), single=("mandatory", "optional"), group=("alternative", "or", "mutex", "card", "card", "star"), layout="free",
-                    abstract=True, ctc_max=4, ctc_expr=_ctc,
+                    abstract=True, ctc_max=4, ctc_expr=_ctc, simple_ops=logic.LOGICAL,
                     sanitize=lambda n: n + "_" if n in ("not", "and", "or", "XOR") else n)
 
 
@@ -107,6 +107,8 @@ def classes(case):
 
 
 SUBS = [
+    Sub("constraint-shapes", check, enum=_bool.enum_constraint_shapes, nontrivial=nontrivial, classes=classes,
+        exhaustive=False),
     Sub("exports", check, gen=lambda tier: S.model_specs(PROFILE, 1, 9), nontrivial=nontrivial, classes=classes,
         n={"quick": 800, "thorough": 6000},
         essential=["rel:mutex", "rel:cardinal", "multi-relations-parent", "op:XOR", "op:EQUIVALENCE", "op:EXCLUDES",
